@@ -35,7 +35,10 @@ import (
 
 // ---- configuration of one history ----
 type config struct {
-	Init      []byte `json:"init"`
+	Init      []byte `json:"-"`         // = stream(InitSeed, InitLen), or InitLit
+	InitSeed  int    `json:"initSeed"`
+	InitLen   int    `json:"initLen"`
+	InitLit   []byte `json:"initLit,omitempty"`
 	Layout    string `json:"layout"`    // trickle | balanced | identity (single identity-CID node)
 	InitChunk int    `json:"initChunk"` // chunk size of the initial import
 	InitWidth int    `json:"initWidth"`
@@ -48,10 +51,92 @@ type config struct {
 
 type op struct {
 	Kind   string `json:"k"` // write writeat seek read ctxread truncate size sync getnode
-	Data   []byte `json:"d,omitempty"`
+	Data   []byte `json:"-"` // payload = stream(Seed, Len), or Lit
+	Seed   int    `json:"seed,omitempty"`
+	Len    int    `json:"len,omitempty"`
+	Lit    []byte `json:"lit,omitempty"`
 	Off    int64  `json:"off,omitempty"`
 	Whence int    `json:"wh,omitempty"`
 	N      int    `json:"n,omitempty"`
+}
+
+// ---- deterministic byte streams, mirrored by gen/ex in M_C10.v ----
+func genByte(seed, i int) byte { return byte(1 + (seed*131+i*7+(i/255)*3)%255) }
+
+func stream(seed, n int) []byte {
+	b := make([]byte, n)
+	for i := range b {
+		b[i] = genByte(seed, i)
+	}
+	return b
+}
+
+// materialize fills Init and the payloads from their seeds (after generation or JSON decoding).
+func materialize(c *config, ops []op) {
+	if c.InitLit != nil {
+		c.Init = c.InitLit
+	} else {
+		c.Init = stream(c.InitSeed, c.InitLen)
+	}
+	for i := range ops {
+		if ops[i].Kind != "write" && ops[i].Kind != "writeat" {
+			continue
+		}
+		if ops[i].Lit != nil {
+			ops[i].Data = ops[i].Lit
+		} else {
+			ops[i].Data = stream(ops[i].Seed, ops[i].Len)
+		}
+	}
+}
+
+type src struct{ seed, n int }
+
+// encode renders a byte string as a Coq [list seg] term (expanded by M_C10.ex): greedy
+// longest match against zero runs and the streams in use, literal bytes otherwise.
+func encode(b []byte, srcs []src) string {
+	var segs []string
+	var lit []byte
+	flush := func() {
+		if len(lit) > 0 {
+			segs = append(segs, vh.App("SLit", vh.Bytes(lit)))
+			lit = nil
+		}
+	}
+	for p := 0; p < len(b); {
+		bestLen, best := 0, ""
+		if b[p] == 0 {
+			k := p
+			for k < len(b) && b[k] == 0 {
+				k++
+			}
+			bestLen, best = k-p, vh.App("SZero", vh.Z(int64(k-p)))
+		}
+		for _, s := range srcs {
+			for off := 0; off < s.n; off++ {
+				if genByte(s.seed, off) != b[p] {
+					continue
+				}
+				k := 0
+				for p+k < len(b) && off+k < s.n && genByte(s.seed, off+k) == b[p+k] {
+					k++
+				}
+				if k > bestLen {
+					bestLen, best = k, vh.App("SGen", vh.Z(int64(s.seed)), vh.Z(int64(off)), vh.Z(int64(k)))
+				}
+			}
+		}
+		if bestLen >= 3 {
+			flush()
+			segs = append(segs, best)
+			p += bestLen
+		} else {
+			lit = append(lit, b[p])
+			p++
+		}
+	}
+	flush()
+	return vh.App("ex", vh.List(segs))
 }
 
 func prefixOf(name string) cid.Prefix {
